@@ -705,6 +705,33 @@ fn part3(tier: Tier, deadline: &Deadline) -> Stats {
             }
             st.nontrivial += 1;
             st.witness("static_program_compared_with_dynamic_runs");
+            // the crate's own public pieces of the static iteration, used by hand: try_iter over
+            // static_test::Driver, every row through From<DataRow> for StaticDataRow
+            match run_public_static_driver(&tc, 45, 1, 5_000, true) {
+                StaticObs::Rows(prows, _) => {
+                    st.witness("public_static_driver_and_from_impl");
+                    let same = prows.len() == rows.len()
+                        && prows.iter().zip(rows.iter()).all(|(d, s)| match (d, s) {
+                            (Ok(d), Ok(s)) => d == s,
+                            (Err(_), Err(_)) => true,
+                            _ => false,
+                        });
+                    if !same {
+                        let k = prows.iter().zip(rows.iter()).position(|(d, s)| match (d, s) {
+                            (Ok(d), Ok(s)) => d != s,
+                            (Err(_), Err(_)) => false,
+                            _ => true,
+                        });
+                        st.violation("static rows differ from try_iter over static_test::Driver + From<DataRow>", idx, format!("{text}try_iter_static yields {} items, try_iter(&mut static_test::Driver) turned into StaticDataRow {}; first difference at {k:?}:\n static {:?}\n by hand {:?}", rows.len(), prows.len(), k.and_then(|k| rows.get(k)), k.and_then(|k| prows.get(k))), || replay(format!("{:?}", k.and_then(|k| prows.get(k)))));
+                        return;
+                    }
+                }
+                StaticObs::Watchdog => {}
+                other => {
+                    st.violation("static rows differ from try_iter over static_test::Driver + From<DataRow>", idx, format!("{text}try_iter(&mut static_test::Driver): {other:?}"), || replay(format!("{other:?}")));
+                    return;
+                }
+            }
             // dynamic runs: whatever the driver returns
             for (ai, val) in [V::Num(0), V::Num(7), V::Z, V::X].into_iter().enumerate() {
                 for layout in 0..3 {
